@@ -168,6 +168,34 @@ int main(int argc, char** argv) {
     R.check("range_ends_with(_, 3)", in, param_matches(range_ends_with(_, 3), std::ref(r)), r.size() >= 2 && r.back() == 3, "ends");
     R.check("range_is_permutation(_, _, _)", in, param_matches(range_is_permutation(_, _, _), std::ref(r)), r.size() == 3, "perm");
   }
+  // matchers own what they were built from: a collection or element passed as an lvalue is copied at creation (built-in arrays
+  // excepted, which the library views), and the lvalue itself is left intact for the next matcher built from it
+  {
+    const V subject{1, 2, 3};
+    std::vector<int> lv{1, 2, 3}; std::array<int, 3> la{{1, 2, 3}}; std::deque<int> ld{1, 2, 3}; std::list<int> ll{1, 2, 3};
+    auto m_is_v = range_is(lv); auto m_perm_a = range_is_permutation(la); auto m_starts_d = range_starts_with(ld); auto m_ends_l = range_ends_with(ll); auto m_incl_v = range_includes(lv);
+    lv[0] = 9; lv[2] = 9; la[1] = 9; ld[0] = 9; ll.back() = 9;   // the caller goes on using its objects
+    R.check("range_is(vector lvalue), lvalue modified afterwards", "vector{1,2,3}", param_matches(m_is_v, std::ref(subject)), true, "owns");
+    R.check("range_is_permutation(array lvalue), lvalue modified afterwards", "vector{1,2,3}", param_matches(m_perm_a, std::ref(subject)), true, "owns");
+    R.check("range_starts_with(deque lvalue), lvalue modified afterwards", "vector{1,2,3}", param_matches(m_starts_d, std::ref(subject)), true, "owns");
+    R.check("range_ends_with(list lvalue), lvalue modified afterwards", "vector{1,2,3}", param_matches(m_ends_l, std::ref(subject)), true, "owns");
+    R.check("range_includes(vector lvalue), lvalue modified afterwards", "vector{1,2,3}", param_matches(m_incl_v, std::ref(subject)), true, "owns");
+    const V changed{9, 2, 9};
+    R.check("range_is(vector lvalue) does not follow the lvalue", "vector{9,2,9}", param_matches(m_is_v, std::ref(changed)), false, "owns");
+    // elements with a move that differs from a copy, used for several matchers
+    const std::string big(40, 'b'), other(40, 'o');
+    std::string banned = big, wanted = big; auto eqm = eq(big);
+    const std::vector<std::string> has{other, big}, hasnot{other, other}, onlybig{big}, bigbig{big, big}, bbo{big, big, other}, obb{other, big, big};
+    auto n1 = range_none_of(banned); auto n2 = range_none_of(banned); auto a1 = range_any_of(wanted); auto a2 = range_any_of(wanted); auto l1 = range_all_of(wanted); auto l2 = range_all_of(wanted);
+    auto e1 = range_any_of(eqm); auto e2 = range_none_of(eqm); auto i2 = range_is(eq(wanted), eq(banned));   // (for the positional forms a std::string argument is a collection of characters)
+    R.check("element lvalues intact after building twelve matchers from them", "std::string x3", std::string(banned == big && wanted == big ? "intact" : "changed"), std::string("intact"), "owns");   // checked again at the end of the block
+    R.check("first range_none_of(lvalue string)", "{other,big}", param_matches(n1, std::ref(has)), false, "owns"); R.check("second range_none_of(same lvalue)", "{other,big}", param_matches(n2, std::ref(has)), false, "owns");
+    R.check("first range_none_of(lvalue string)", "{other,other}", param_matches(n1, std::ref(hasnot)), true, "owns"); R.check("second range_none_of(same lvalue)", "{other,other}", param_matches(n2, std::ref(hasnot)), true, "owns");
+    R.check("first range_any_of(lvalue string)", "{other,big}", param_matches(a1, std::ref(has)), true, "owns"); R.check("second range_any_of(same lvalue)", "{other,big}", param_matches(a2, std::ref(has)), true, "owns");
+    R.check("first range_all_of(lvalue string)", "{other,big}", param_matches(l1, std::ref(has)), false, "owns"); R.check("second range_all_of(same lvalue)", "{big}", param_matches(l2, std::ref(onlybig)), true, "owns");
+    R.check("range_any_of(eq matcher lvalue)", "{other,big}", param_matches(e1, std::ref(has)), true, "owns"); R.check("range_none_of(same eq matcher lvalue)", "{other,big}", param_matches(e2, std::ref(has)), false, "owns");
+    R.check("range_is(two lvalue strings)", "{big,big}", param_matches(i2, std::ref(bigbig)), true, "owns");
+  }
   // through a real mock function (a systematic slice: every range of length <= 2)
   trompeloeil::set_reporter([](trompeloeil::severity s, char const*, unsigned long, std::string const&) { if (s == trompeloeil::severity::fatal) throw Fatal{}; });
   for (auto& r : ranges) if (r.size() <= 2) {
